@@ -33,6 +33,8 @@ class Module:
             _normalise_comparisons(self.tree)
         if os.environ.get("COBASTATIC_CANON_RET", "1") != "0":
             _inline_return_temporaries(self.tree)
+        if os.environ.get("COBASTATIC_CANON_IF", "1") != "0":
+            _orient_two_armed_conditionals(self.tree)
         for parent in ast.walk(self.tree):
             for child in ast.iter_child_nodes(parent):
                 child._parent = parent  # type: ignore[attr-defined]
@@ -94,6 +96,17 @@ def _normalise_annotations(tree: ast.AST) -> None:
                 if not out:
                     out = [ast.copy_location(ast.Pass(), b[0])]
                 b[:] = out
+
+
+def _orient_two_armed_conditionals(tree: ast.AST) -> None:
+    """`if not c: B else: A` becomes `if c: A else: B` (two-armed ifs that are not elif chains), `y if not c else x` becomes `x if c else y`:
+    which arm is written first carries no meaning, so the rules see one orientation."""
+    for n in ast.walk(tree):
+        if isinstance(n, ast.If) and n.orelse and not (len(n.orelse) == 1 and isinstance(n.orelse[0], ast.If)) \
+                and isinstance(n.test, ast.UnaryOp) and isinstance(n.test.op, ast.Not):
+            n.test, n.body, n.orelse = n.test.operand, n.orelse, n.body
+        elif isinstance(n, ast.IfExp) and isinstance(n.test, ast.UnaryOp) and isinstance(n.test.op, ast.Not):
+            n.test, n.body, n.orelse = n.test.operand, n.orelse, n.body
 
 
 def _inline_return_temporaries(tree: ast.AST) -> None:
